@@ -1,4 +1,4 @@
-CONSTANTS MaxOps = 5  PromptLens = {0, 1, 2}  KVModes = {TRUE, FALSE}  SampledToks = {7}
+CONSTANTS MaxOps = 4  PromptLens = {0, 1, 2}  KVModes = {TRUE, FALSE}  SampledToks = {7}
 INIT Init
 NEXT Step
 INVARIANTS PrevIsHistory PositionsContiguous ExactlyOnce CacheHandOff WholePendingSubmitted Emit
